@@ -3,6 +3,8 @@
 from __future__ import annotations
 
 import ast
+
+from sa.astutil import after_block, precedes  # statement order (never line numbers)
 import itertools
 import re
 
@@ -220,7 +222,7 @@ def r3_no_lost_update(ctx):
 
             g = ctx.cfg(f)
             body_nodes = g.loop_body_nodes(g.node_of(lp))
-            outside = [nd for nd in g.nodes if nd.ast is not None and nd not in body_nodes and nd is not g.node_of(lp) and getattr(nd.ast, "lineno", 0) > lp.end_lineno]
+            outside = [nd for nd in g.nodes if nd.ast is not None and nd not in body_nodes and nd is not g.node_of(lp) and after_block(f, lp, nd.ast)]
             bad = None
             for st in walk_ordered(lp):
                 if not isinstance(st, (ast.Assign, ast.AnnAssign)) or getattr(st, "value", None) is None:
